@@ -97,9 +97,11 @@ def attr_uses(P, attr):
     out = []
     for m in P.mods.values():
         par = m.parents
-        for n in ast.walk(m.tree):
-            if not (isinstance(n, ast.Attribute) and n.attr == attr):
-                continue
+        nodes = [n for n in ast.walk(m.tree) if isinstance(n, ast.Attribute) and n.attr == attr]
+        i = 0
+        while i < len(nodes):
+            n = nodes[i]
+            i += 1
             cls, func = _enclosing_func_cls(P, m, n)
             p = par.get(n)
             role = None
@@ -131,6 +133,15 @@ def attr_uses(P, attr):
                 role = ('return',)
             elif isinstance(p, ast.Assign) and p.value is n:
                 role = ('assign-alias', ast.unparse(p.targets[0]))
+                # a local that is just another name for the object held in the attribute (cfg.tame_aliases): its uses are uses of the
+                # attribute, reported with the roles they have
+                if func is not None and isinstance(n, ast.Attribute) and len(p.targets) == 1 and isinstance(p.targets[0], ast.Name):
+                    from .cfg import tame_aliases
+                    if p.targets[0].id in tame_aliases(func):
+                        role = ('alias', p.targets[0].id)
+                        for u in ast.walk(func):
+                            if isinstance(u, ast.Name) and u.id == p.targets[0].id and isinstance(u.ctx, ast.Load):
+                                nodes.append(u)
             elif isinstance(p, ast.AugAssign) and p.value is n:
                 role = ('binop', type(p.op).__name__)
             else:
